@@ -285,6 +285,22 @@ theorem fbFold_ok (keys : List (Name α)) (evs : List (Name α × Name α)) (st 
     simp only [fbFold, fbStep, hk, if_true]
     exact ih _ (fun ev' hev' => h ev' (List.mem_cons_of_mem _ hev'))
 
+/-- the only failure of `_feedback` is the `KeyError` for a fed-back name that is not a node -/
+theorem fbFold_error (keys : List (Name α)) (evs : List (Name α × Name α)) (st : FbSt α)
+    (err : Err α) (h : fbFold keys evs st = .error err) :
+    ∃ ev, ev ∈ evs ∧ err = .keyError ev.2 ∧ ev.2 ∉ keys := by
+  induction evs generalizing st with
+  | nil => simp [fbFold] at h
+  | cons ev evs ih =>
+    simp only [fbFold, fbStep] at h
+    by_cases hk : ev.2 ∈ keys
+    · simp only [hk, if_true] at h
+      obtain ⟨ev', hev', h1, h2⟩ := ih _ h
+      exact ⟨ev', List.mem_cons_of_mem _ hev', h1, h2⟩
+    · simp only [hk, if_false] at h
+      injection h with h
+      exact ⟨ev, List.mem_cons_self, h.symm, hk⟩
+
 theorem mem_fbEvents (e : Engine α) (keys : List (Name α)) (k f : Name α) :
     (k, f) ∈ fbEvents e keys ↔ k ∈ keys ∧ f ∈ e.feedbackOf k := by
   unfold fbEvents
